@@ -1,4 +1,5 @@
 import Seccomp.Proofs.Lemmas.TableFacts
+import Seccomp.Gen.GetInfo
 /-!
 # C12 — syscall tables and architecture metadata are correct and unambiguous
 
@@ -218,16 +219,62 @@ def expectedTable : List (String × String) := [
   ("arm", "syscallsARM"), ("aarch64", "syscallsAARCH64"), ("i386", "syscalls386"),
   ("x32", "syscallsX32"), ("x86_64", "syscallsX86_64")]
 
-/-- the shape of `GetInfo` read from the source is the one the model assumes: it lower-cases a
-    non-empty name and its guard is `!found || len(arch.SyscallNames) == 0` -/
-theorem getinfo_shape : Gen.getInfoLowers = true ∧ Gen.getInfoGuard = expectedGuard := by
+/-- every value of the alias map is a declared `Info` variable (anything else does not compile) -/
+theorem alias_values_are_rows : ∀ kv ∈ Gen.arches, (rowOfVar kv.2).isSome = true := by
   decide +kernel
+
+theorem lookup_is_row {key v : String} (h : Gen.arches.lookup key = some v) : ∃ r, rowOfVar v = some r := by
+  have hm : (key, v) ∈ Gen.arches := by
+    have : ∀ (l : List (String × String)), l.lookup key = some v → (key, v) ∈ l := by
+      intro l
+      induction l with
+      | nil => intro h; cases h
+      | cons a l ih =>
+        intro h
+        obtain ⟨k, x⟩ := a
+        simp only [List.lookup] at h
+        split at h
+        · rename_i heq
+          have hk : key = k := by simpa using heq
+          cases h; subst hk; exact List.mem_cons_self
+        · exact List.mem_cons_of_mem _ (ih h)
+    exact this _ h
+  have := alias_values_are_rows _ hm
+  cases hr : rowOfVar v with
+  | none => rw [hr] at this; cases this
+  | some r => exact ⟨r, rfl⟩
+
+/-- **Translator tie, `GetInfo`.**  The rendering of the function body regenerated from arch/info.go
+    (`Gen.getInfoSkel`: its statements over map lookup, lower-casing, `len`, Go's short-circuit
+    operators, with a nil dereference as an explicit outcome) returns, for every `GOARCH` and every
+    name, exactly what the hand-written reference `Arch.getInfo` returns — in particular it never
+    panics and contains no statement outside the translated subset.  Proved by cases on what the two
+    possible keys find in the alias map and on whether the row's table is empty, not on how the source
+    arranges its tests, so an equivalent arrangement proves the same way. -/
+theorem getinfo_tie (goarch name : String) :
+    Gen.getInfoSkel goarch name = toRes (getInfo goarch name) := by
+  unfold Gen.getInfoSkel getInfo resolve
+  by_cases hn : name = ""
+  · cases h1 : Gen.arches.lookup goarch with
+    | none => simp [hn, lookupArch, h1, ite3, orS, andS, notS, cmpS, lenNames, toRes]
+    | some v =>
+      obtain ⟨r, hr⟩ := lookup_is_row h1
+      cases ht : tableOf r.names <;>
+        simp [hn, lookupArch, h1, hr, ite3, orS, andS, notS, cmpS, lenNames, namesEmpty, ht, toRes]
+  · cases h1 : Gen.arches.lookup (lower name) with
+    | none => simp [hn, lookupArch, h1, ite3, orS, andS, notS, cmpS, lenNames, toRes]
+    | some v =>
+      obtain ⟨r, hr⟩ := lookup_is_row h1
+      cases ht : tableOf r.names <;>
+        simp [hn, lookupArch, h1, hr, ite3, orS, andS, notS, cmpS, lenNames, namesEmpty, ht, toRes]
+
+/-- the translator rendered every statement of `GetInfo` -/
+theorem getinfo_rendered : Gen.getInfoNotes = [] := by decide
 
 /-- a non-empty name is looked up lower-cased; the empty name means `runtime.GOARCH` -/
 theorem getInfo_nonempty (goarch s : String) (hs : s ≠ "") : getInfo goarch s = resolve (lower s) := by
   unfold getInfo
   rw [if_neg hs]
-  rfl
 
 theorem getInfo_empty (goarch : String) : getInfo goarch "" = resolve goarch := by
   unfold getInfo
